@@ -275,12 +275,12 @@ Definition snippet_stmt (st : pstate) : pres (stmt * pstate) :=
     end;
   POK (s, next st1).
 
-(* ParseSnippetVCL: for !p.PeekTokenIs(token.EOF) { ... }; p.NextToken() *)
+(* ParseSnippetVCL: for !p.CurTokenIs(token.EOF) { ... }; p.NextToken() *)
 Fixpoint psnippet (n : nat) (st : pstate) (acc : list stmt) : pres (list stmt * pstate) :=
   match n with
   | O => PFuel
   | S n' =>
-    if peek_is st T_EOF then POK (rev acc, next st)
+    if cur_is st T_EOF then POK (rev acc, next st)
     else do (s, st1) <- snippet_stmt st; psnippet n' st1 (s :: acc)
   end.
 
